@@ -3,7 +3,7 @@ SPEC = {
     "lean_props": ["TunnoxModel.Props.C16"],
     "harness": {
         "pkg": "c16",
-        "shims": {"c16tunnel": "internal/protocol/session/tunnel"},
+        "shims": {"c16tunnel": "internal/protocol/session/tunnel", "c16mapping": "internal/client/mapping"},
         "runs": [{"args": [], "corpus": "", "timeout": 7200}],
     },
     # which closer wins (its reason, and with it whether the peer is notified) depends on the schedule;
